@@ -603,7 +603,7 @@ func TestVerifConn(t *testing.T) {
 			evs := vcTraceSince(tr.Mark)
 			rec := map[string]interface{}{"kind": "violation", "engine": "connmon", "scenario": scen, "case": idx, "case_seed": ts,
 				"property": tr.viol.Prop, "oracle": tr.viol.Kind, "msg": tr.viol.Msg, "detail": tr.viol.Detail,
-				"params": tr.Param, "trace_tail": vcTraceDump(evs[vcMaxInt(0, len(evs)-400):], 0, 400)}
+				"params": tr.Param, "trace_tail": vcTraceDump(vcTraceEssential(evs, 600), 0, 600)}
 			if tr.Plan != nil {
 				rec["plan"] = map[string]interface{}{"mode": tr.Plan.Mode, "P": vcPointName(tr.Plan.P), "Q": vcPointName(tr.Plan.Q), "realised": tr.Plan.Realised(), "parked": tr.Plan.Parked(), "jitter_pm": tr.Plan.JitterPM}
 			}
@@ -638,4 +638,25 @@ func vcMinInt(a, b int) int {
 		return a
 	}
 	return b
+}
+
+// vcTraceEssential keeps the last max events of a trial's trace after dropping the poller's
+// per-batch bookkeeping (begin/end/dispatch-done/skip): a descriptor left registered makes a
+// level-triggered poller spin, and thousands of such events would push everything that explains
+// the violation out of the witness.
+func vcTraceEssential(evs []vcEvent, max int) []vcEvent {
+	out := make([]vcEvent, 0, len(evs))
+	spin := 0
+	for _, e := range evs {
+		switch int(e.Point) {
+		case vpPollBatchBegin, vpPollBatchEnd, vpPollDispatchDone, vpPollSkip:
+			spin++
+			continue
+		}
+		out = append(out, e)
+	}
+	if len(out) > max {
+		out = out[len(out)-max:]
+	}
+	return out
 }
